@@ -40,6 +40,27 @@ static inline bool iora_strstack_top_ne(const iora_strstack *s, const iora_sv *i
   return ne;
 }
 
+/* `_elementStack.back().compare(pos, n, name)` (std::string::compare(pos, n, string_view)): compares the SUBSTRING top[pos, pos + min(n, size - pos))
+ * with name: first the common bytes, then the two LENGTHS (substring length vs name.size()). pos > size() throws std::out_of_range (asserted not to
+ * happen). Over the witness entry the nondeterministic result is consistent with the contents: 0 => the substring has the length of `name` and the
+ * same byte at the arbitrary index GK; != 0 => the lengths differ or some byte differs. Other levels answer nondeterministically. */
+static inline int iora_strstack_top_compare(const iora_strstack *s, const iora_sv *in, size_t pos, size_t n, iora_sv name)
+{
+  IORA_ASSERT(s->n > 0, "vector::back() on an empty vector");
+  IORA_ASSERT(__CPROVER_same_object(name.p, in->p), "compared name is a slice of the input");
+  int r = nondet_int();
+  if (s->n - 1 == GL)
+  {
+    IORA_ASSERT(pos <= s->wit_n, "std::string::compare: pos <= size() (else std::out_of_range)");
+    size_t sub = n < s->wit_n - pos ? n : s->wit_n - pos;
+    size_t no = (size_t)__CPROVER_POINTER_OFFSET(name.p);
+    size_t k = nondet_size_t();
+    if (r != 0) { IORA_ASSUME(sub != name.n || (k < name.n && in->p[s->wit_off + pos + k] != in->p[no + k])); }
+    else { IORA_ASSUME(sub == name.n && (GK >= name.n || in->p[s->wit_off + pos + GK] == in->p[no + GK])); }
+  }
+  return r;
+}
+
 #include "contracts.h"
 
 /* ---- callee contracts (replace) : conjunctions of groups proved in unit xml_cursor ---- */
@@ -70,3 +91,41 @@ bool Parser_readDoctype(Parser *self, size_t startOffset, size_t startLine, size
   __CPROVER_loop_invariant(GA < attrs->n ==> (XML_SLICE_IN(self, attrs->gk.name) && XML_SLICE_IN(self, attrs->gk.value) && attrs->gk.name.n >= 1 \
        && attrs->gk.name.n <= self->_opt.maxNameLength && attrs->gk.value.n <= self->_opt.maxTextSpan)) \
   __CPROVER_decreases(self->_input.n - self->_cur))
+
+/* ---- string_view::find("?>", pos): first-occurrence stub (contract-replaced; loop inside). GF = arbitrary ghost index of the first-occurrence clause.
+ *      The plain C body `_impl` is proved against the same contract (proof find2_lemma). ---- */
+size_t GF;
+#define XSV_F2_AT(s, k, w) (((s)->p[k] == (w)[0]) & ((s)->p[(k) + 1] == (w)[1]))
+#define XSV_F2_R __CPROVER_return_value
+size_t xsv_find_str2(const iora_sv *s, const char *w, size_t pos)
+  __CPROVER_requires(IORA_TRUE && w[0] != 0 && w[1] != 0 && w[2] == 0)
+  __CPROVER_assigns()
+  __CPROVER_ensures(XSV_F2_R == IORA_NPOS || (pos <= XSV_F2_R && XSV_F2_R < s->n && s->n - XSV_F2_R >= 2))
+  __CPROVER_ensures(XSV_F2_R != IORA_NPOS ==> XSV_F2_AT(s, XSV_F2_R, w))
+  __CPROVER_ensures((pos <= GF && GF < s->n && s->n - GF >= 2 && (XSV_F2_R == IORA_NPOS || GF < XSV_F2_R)) ==> !XSV_F2_AT(s, GF, w));
+size_t xsv_find_str2_impl(const iora_sv *s, const char *w, size_t pos)
+{
+  size_t k = pos;
+  while (k < s->n && s->n - k >= 2)
+  IORA_LC(__CPROVER_assigns(k)
+          __CPROVER_loop_invariant(pos <= k && (k <= s->n || k == pos))
+          __CPROVER_loop_invariant((pos <= GF && GF < k && GF < s->n && s->n - GF >= 2) ==> !XSV_F2_AT(s, GF, w))
+          __CPROVER_decreases(s->n - k))
+  {
+    if (XSV_F2_AT(s, k, w)) return k;
+    k++;
+  }
+  return IORA_NPOS;
+}
+
+/* ---- loop contracts of readProcessingInstruction / readDoctype ---- */
+#define IORA_LOOP_Parser_readProcessingInstruction_1 IORA_LC( __CPROVER_assigns(self->_cur, self->_line, self->_col) \
+  __CPROVER_loop_invariant(XML_CUR_INV(self) && self->_cur >= __CPROVER_loop_entry(self->_cur) && self->_cur <= pos + 2) \
+  __CPROVER_decreases(pos + 2 - self->_cur))
+/* the '[' counter is bounded by the bytes scanned (so it cannot overflow for inputs < 2^31 bytes) and never negative */
+#define IORA_LOOP_Parser_readDoctype_1 IORA_LC( __CPROVER_assigns(pos, bracket) \
+  __CPROVER_loop_invariant(self->_cur <= pos && pos <= self->_input.n && bracket >= 0 && (size_t)bracket <= pos - self->_cur) \
+  __CPROVER_decreases(self->_input.n - pos))
+#define IORA_LOOP_Parser_readDoctype_2 IORA_LC( __CPROVER_assigns(self->_cur, self->_line, self->_col) \
+  __CPROVER_loop_invariant(XML_CUR_INV(self) && self->_cur >= __CPROVER_loop_entry(self->_cur) && self->_cur <= pos + 1) \
+  __CPROVER_decreases(pos + 1 - self->_cur))
